@@ -520,6 +520,120 @@ def reuse_cases(ctx, tmp, rng, pool, thorough):
             ctx.fail(case, {"what": "an evaluation of the datapipe did not visit every stored pixel exactly once", "evaluations": res}, None)
     return len(cases)
 
+# ---------------------------------------------------------------------------------------------------------
+# SEVERAL pipelines derived from ONE shared base pipe, evaluated in different orders: each must give exactly
+# what its own linear chain gives (oracle: the same transformations applied to the dense data in Python).
+def _br_init(chunk):
+    return np.array(chunk["pixels"]["count"], dtype=float)
+
+
+def _br_zero_diag(chunk, data):
+    data[chunk["pixels"]["bin1_id"] == chunk["pixels"]["bin2_id"]] = 0
+    return data
+
+
+def _br_binarize(chunk, data):
+    data[data != 0] = 1
+    return data
+
+
+def _br_scale(k, chunk, data):
+    return data * k
+
+
+def _br_marg(n, chunk, data):
+    px = chunk["pixels"]
+    off = np.where(px["bin1_id"] == px["bin2_id"], 0, data)
+    return np.bincount(px["bin1_id"], weights=data, minlength=n) + np.bincount(px["bin2_id"], weights=off, minlength=n)
+
+
+BRANCHES = {"base": [], "f": ["f"], "g": ["g"], "fg": ["f", "g"], "gf": ["g", "f"], "fg_list": ["f", "g"], "scale3": ["s3"], "f_scale3_g": ["f", "s3", "g"]}
+BRANCH_ORDERS = [["g", "f", "f", "fg", "base", "scale3", "fg_list", "f", "gf", "f_scale3_g", "g", "base"],
+                 ["fg", "base", "g", "g", "f_scale3_g", "f", "scale3", "gf", "fg_list", "base", "f"]]
+
+
+def run_branches(case, tmp, pool):
+    from cooler.parallel import split
+    per, pixels = case["per"], case["pixels"]
+    n = sum(per)
+    path = tmp / "branch.cool"
+    clr = G.build_cooler(path, per, pixels)
+    mp = {"builtin": map, "pool": pool.imap_unordered, "pool.map": pool.map}[case["map"]]
+
+    def expected(ops):
+        m = [0.0] * n
+        for i, j, c in pixels:
+            x = float(c)
+            for op in ops:
+                if op == "f":
+                    x = 0.0 if i == j else x
+                elif op == "g":
+                    x = 1.0 if x != 0 else 0.0
+                else:
+                    x = x * 3.0
+            m[i] += x
+            if i != j:
+                m[j] += x
+        return m
+
+    def go():
+        from functools import partial
+        base = split(clr, map=mp, chunksize=case["chunk"]).prepare(_br_init)
+        fun = {"f": _br_zero_diag, "g": _br_binarize}
+        pipes = {}
+        for name, ops in BRANCHES.items():          # all branches are derived from the one shared base BEFORE any is evaluated
+            if name == "fg_list":
+                dp = base.pipe([_br_zero_diag, _br_binarize])
+            else:
+                dp = base
+                for op in ops:
+                    dp = dp.pipe(_br_scale, 3.0) if op == "s3" else dp.pipe(fun[op])
+            pipes[name] = dp.pipe(_br_marg, n)
+        bad = []
+        for k, name in enumerate(case["order"]):
+            got = pipes[name].reduce(add, np.zeros(n))
+            exp = expected(BRANCHES[name])
+            if not (isinstance(got, np.ndarray) and got.shape == (n,) and [float(x) for x in got] == exp):
+                bad.append([k, name, [float(x) for x in np.atleast_1d(got)][:16], exp])
+        # a late branch taken from the base after everything has run
+        late = base.pipe(_br_binarize).pipe(_br_marg, n).reduce(add, np.zeros(n))
+        if [float(x) for x in late] != expected(["g"]):
+            bad.append(["late", "g", [float(x) for x in late], expected(["g"])])
+        return bad
+    try:
+        res = G.with_limit(60.0, go)
+    finally:
+        if path.exists():
+            os.remove(path)
+    if isinstance(res, str):
+        return [["pipeline", "crash/timeout", res]]
+    return True if not res else res
+
+
+def branch_cases(ctx, tmp, rng, pool, thorough):
+    cases = []
+    nnz = len(REUSE_PX)
+    for c in [1, 2, 5, nnz - 1, nnz, nnz + 1]:
+        for m in ("builtin", "pool", "pool.map"):
+            if thorough or m == "builtin" or c in (2, 5):
+                cases.append({"branches": True, "per": [3, 2], "pixels": REUSE_PX, "chunk": c, "map": m,
+                              "order": BRANCH_ORDERS[(c + len(m)) % 2]})
+    for _ in range(20 if thorough else 4):
+        per = G.random_per(rng)
+        px = G.random_pixels(rng, per)
+        if len(px) < 3:
+            continue
+        order = [rng.choice(sorted(BRANCHES)) for _ in range(10)]
+        cases.append({"branches": True, "per": per, "pixels": px, "chunk": rng.choice([1, 2, 3, len(px)]),
+                      "map": rng.choice(["builtin", "pool", "pool.map"]), "order": order})
+    for case in cases:
+        ctx.case(case, nontrivial=True, kind="branches:" + case["map"])
+        res = run_branches(case, tmp, pool)
+        if res is not True:
+            ctx.fail(case, {"what": "a pipeline derived from a shared base differs from its own linear chain",
+                            "evaluations [position, branch, got, expected]": res[:4]}, None)
+    return len(cases)
+
 
 def _run(ctx, cooler, split, B, pool, pool4, maps, thorough, rng, tmp):
     pmaps = {"pool.map": pool.map, "pool.imap": pool.imap, "pool.imap_unordered": pool.imap_unordered}
@@ -661,6 +775,7 @@ def _run(ctx, cooler, split, B, pool, pool4, maps, thorough, rng, tmp):
     # ------------------------------------------------------------ histories in one process on one path
     nhist = history(ctx, tmp, rng, pool, thorough)
     nreuse = reuse_cases(ctx, tmp, rng, pool, thorough)
+    nbranch = branch_cases(ctx, tmp, rng, pool, thorough)
 
     # ------------------------------------------------------------ use_lock=True (global multiprocess lock around the HDF5 read)
     lock_cs = cases[4]
@@ -739,10 +854,17 @@ def _run(ctx, cooler, split, B, pool, pool4, maps, thorough, rng, tmp):
                     impl if isinstance(impl, str) else [[str(x) for x in r] for r in impl],
                     [[str(x) for x in r] for r in model])
     ctx.extra["runs"] = {"balance_runs": nruns, "coolers": len(cases), "skipped_float_fragile": skipped,
-                         "cli_runs": ncli, "histories": nhist, "reuse_cases": nreuse, "span_lists_compared": len(span_exprs), "pipelines_compared": len(chunk_exprs)}
+                         "cli_runs": ncli, "histories": nhist, "reuse_cases": nreuse, "branch_cases": nbranch, "span_lists_compared": len(span_exprs), "pipelines_compared": len(chunk_exprs)}
 
 
 def replay(ctx, case):
+    if case.get("branches"):
+        from multiprocess import Pool as _Pool
+        bp = _Pool(2)
+        try:
+            return run_branches(case, ctx.tmp, bp) is True
+        finally:
+            bp.terminate()
     if case.get("reuse"):
         from multiprocess import Pool as _Pool
         rp = _Pool(2)
